@@ -14,14 +14,16 @@
    What is an oracle input (the trusted parsers / other components, result supplied per frame in [orc]):
      FileContext::from (open ok/err + options), StreamContext::from (ok/err + window, one_pass, #filters),
      process_stream_search_params (returns Ok after having written its one ok-frame, or Err having
-     written nothing), serde_json::from_str + member lookups for plugin_cmd / fs, process_fs_cmd ok/err,
-     the number of collected messages (for `stream_binary_search <id> index=<n>`; the lookups themselves
+     written nothing), serde_json::from_str + member lookups for plugin_cmd / fs, the ENVIRONMENT an `fs`
+     command refers to (file metadata incl. times before the epoch, read_dir, archives: [fs_orc] of
+     Remote/DispatchFs.v, where process_fs_cmd itself is transcribed), the number of collected messages (for `stream_binary_search <id> index=<n>`; the lookups themselves
      belong to C16).
    What the event loop contributes between two commands is an explicit list of events ([EvDone id]: a
    query finished and was removed by process_file_context).  All theorems quantify over every event
    list, i.e. over every schedule of the parser threads relative to the commands. *)
 From Coq Require Import List NArith Bool Ascii String.
 From AdltV Require Import Base.Res Base.MachInt.
+From AdltV Require Export Remote.DispatchFs.
 Import ListNotations.
 Open Scope string_scope.
 Open Scope N_scope.
@@ -211,7 +213,7 @@ Record orc := {
   o_search_ok : bool;       (* process_stream_search_params(non-empty body) returns Ok *)
   o_nmsgs : N;              (* all_msgs holds the messages with index 0..o_nmsgs-1 *)
   o_json : json_shape;      (* plugin_cmd / fs: shape of the JSON body *)
-  o_fs_ok : bool            (* process_fs_cmd returns Ok *)
+  o_fs : fs_orc             (* fs: what the operating system / the archive helpers return for the path (Remote/DispatchFs.v) *)
 }.
 
 (* events of process_file_context between two commands *)
@@ -229,7 +231,7 @@ Inductive ok_kind :=
 | OkWindow (old_id new_id w_start w_end : N)
 | OkStop (id : N)
 | OkPluginCmd
-| OkFs.
+| OkFs (v : fs_value).
 
 Inductive err_kind :=
 | EOpenAlready (nfiles : N)   (* open ... failed as file(s) '<dump of file_streams>' is open. close first! *)
@@ -422,7 +424,13 @@ Definition do_fs (st : state) (o : orc) : res (state * list reply) :=
   match o_json o with
   | JBad => Ok (st, [RErr EJsonParse])
   | JNotObject => Ok (st, [RErr ENotObject])
-  | _ => if o_fs_ok o then Ok (st, [ROk OkFs]) else Ok (st, [RErr EFsErr])
+  | _ =>
+      (* match process_fs_cmd(log, params) { Ok(res) => "ok: fs:<res>", Err(e) => "err: fs <e>" } *)
+      (r <- process_fs_cmd (o_fs o) ;;
+       match r with
+       | Some v => Ok (st, [ROk (OkFs v)])
+       | None => Ok (st, [RErr EFsErr])
+       end)%res
   end.
 
 Definition is_id_command (command : string) : bool :=
